@@ -1262,6 +1262,42 @@ def enum_field_layouts():
                         val = {"f": vals, "z": 0x5A}
                     yield D.Composite(f"FL{n}", "request", ps), val
 
+def enum_after_complex():
+    """a sibling LISTED and LOCATED behind a complex data object, positioned by an explicit BYTE-POSITION (relative to the enclosing
+    structure: the origin must be the enclosing one again after every complex object, on the encode and on the decode side):
+    multiplexer with the selected case having / not having a STRUCTURE (regular case, default case), nested STRUCTURE with and without
+    BYTE-SIZE, static field, dynamic-length field (0 / 2 items), each x directly behind the object / behind a one-byte gap x at top
+    level behind a first byte / inside a structure at offset 2 of the request; yields (composite, value)"""
+    n = 0
+    st = lambda: D.Struct([D.value("a", D.u8()), D.value("b", D.u8(16))])
+    mux = lambda: D.Mux(1, 0, None, D.u8(), [D.MuxCase("c0", 0, 0, st()), D.MuxCase("c1", 1, 1, None)], None)
+    muxd = lambda ds: D.Mux(1, 0, None, D.u8(), [D.MuxCase("c0", 0, 0, st())], ("other", st() if ds else None))
+    sv = {"a": 0x11, "b": 0x2233}
+    # (data object, value, number of bytes it occupies)
+    kinds = [
+        ("mux-struct-case", mux, ("c0", sv), 4), ("mux-structless-case", mux, ("c1", {}), 1),
+        ("mux-default-struct", lambda: muxd(True), ("other", sv), 4), ("mux-default-structless", lambda: muxd(False), ("other", {}), 1),
+        ("struct", st, sv, 3), ("struct-bytesize", lambda: D.Struct(st().params, 5), sv, 5),
+        ("static-field", lambda: D.StaticField(2, 4, st()), [sv, sv], 8),
+        ("dyn-field-0", lambda: D.DynLenField(1, 0, None, D.u8(), st()), [], 1),
+        ("dyn-field-2", lambda: D.DynLenField(1, 0, None, D.u8(), st()), [sv, sv], 7),
+    ]
+    for kind, mk, val, size in kinds:
+        for gap in (0, 1):
+            for nested in (False, True):
+                n += 1
+                # positions relative to the enclosing object: [h: u8 @0][x: the complex object @1][y: u8 @1+size+gap]
+                inner = [D.value("h", D.u8()), D.value("x", mk()), D.value("y", D.u8(), bytepos=1 + size + gap)]
+                ival = {"h": 0x44, "x": val, "y": 0x5A}
+                if nested:
+                    ps = [D.sid(), D.value("o", D.u8()), D.value("s", D.Struct(inner))]
+                    v = {"o": 0x33, "s": ival}
+                else:
+                    ps = inner
+                    v = ival
+                yield D.Composite(f"AC{n}_{kind.replace('-', '_')}", "request", ps), v
+
+
 def enum_minmax_wire(full=False):
     """terminated (and END-OF-PDU) MIN-MAX-LENGTH objects seen from the wire: every base type x termination x byte order (two-byte
     code units) x (MIN-LENGTH, MAX-LENGTH) in {(0, -), (0, 2 units), (2 units, 3 units), (1 unit, -)} x followed by a parameter /
